@@ -216,6 +216,11 @@ func NewStore(ctx context.Context, cfg StoreConfig) (*Store, error) {
 			clear(s.active.m) // reset
 		}
 	}
+	if s.active.m == nil {
+		// A cache containing a JSON null decodes without error to a nil map.
+		// Treat that as an empty cache too.
+		s.active.m = make(map[string]*cachedSecret)
+	}
 
 	// If there are any configured secrets that weren't cached, stub them in.
 	// Any that we loaded from the cache, mark as declared.
